@@ -281,11 +281,13 @@ func (evm *EVM) CallCode(caller ContractRef, addr common.Address, input []byte, 
 	}
 	if err != nil {
 		evm.StateDB.RevertToSnapshot(snapshot)
+		// the logs of a reverted frame are reverted with the rest of its effects
+		logs = nil
 		if err != ErrExecutionReverted {
 			gas = 0
 		}
 	}
-	return ret, gas, nil, err
+	return ret, gas, logs, err
 }
 
 // DelegateCall executes the contract associated with the addr with the given input
